@@ -481,7 +481,9 @@ func stringContainsCTLByte(s []byte) bool {
 func splitHostURI(host, uri []byte) ([]byte, []byte, []byte) {
 	scheme, path := getScheme(uri)
 
-	if scheme == nil {
+	// Without a scheme, or when the scheme is not followed by "//" (e.g. "a:b"),
+	// the whole string is the request path.
+	if scheme == nil || !bytes.HasPrefix(path, bytestr.StrSlashSlash) {
 		return bytestr.StrHTTP, host, uri
 	}
 
